@@ -4,7 +4,7 @@ package main
 // includes, typedef chains, enums, unions, exceptions, recursive structs, struct names repeated across
 // files, services with inheritance) are printed to text and parsed under the parse options; the
 // descriptor graph is dumped by identity together with FieldById sweeps over 0..65535 and FieldByKey /
-// native-converter key probes; TLC judges (spec/Trace_TDesc.tla, TDesc!MirrorWhy).
+// native-converter key probes; TLC judges (spec/Trace_TDesc.tla, TMirror!MirrorWhy).
 
 import (
 	"context"
